@@ -36,7 +36,7 @@ try:
     demo = os.path.join(seed, demo_name)
     src = open(demo).read()
     pkg = re.search(r"^package (\w+)", src, re.M).group(1)
-    pkgdir = {"sm2": "sm2", "sm2_test": "sm2", "internal": "sm2/internal", "fiat": "sm2/internal/fiat", "sm3": "sm3", "sm3_test": "sm3", "sm4": "sm4", "sm4_test": "sm4", "utils": "utils", "utils_test": "utils"}[pkg]
+    pkgdir = {"sm2": "sm2", "sm2_test": "sm2", "internal": "sm2/internal", "internal_test": "sm2/internal", "fiat_test": "sm2/internal/fiat", "fiat": "sm2/internal/fiat", "sm3": "sm3", "sm3_test": "sm3", "sm4": "sm4", "sm4_test": "sm4", "utils": "utils", "utils_test": "utils"}[pkg]
     tests = re.findall(r"^func (Test\w+)\(", src, re.M)
     runpat = "^(" + "|".join(tests) + ")$"
     dst = os.path.join(wt, pkgdir, "zz_demo_test.go")
